@@ -2,6 +2,7 @@
 """
 import logging
 import math
+import numbers
 from pathlib import Path
 from typing import Dict, Iterable, List, Literal, Optional, Sequence, Union
 
@@ -122,7 +123,7 @@ class BaseWorklist(list):
             self.append("W;")
             return
 
-        if not scheme in {1, 2, 3, 4}:
+        if isinstance(scheme, bool) or not isinstance(scheme, numbers.Integral) or not scheme in {1, 2, 3, 4}:
             raise ValueError("scheme must be either 1, 2, 3 or 4")
         self.append(f"W{scheme};")
         return
@@ -400,12 +401,12 @@ class BaseWorklist(list):
         else:
             exclude_str = ""
 
-        src_args = (src_rack_label, 1, volume, "", Tip.Any, src_rack_id, "", src_rack_type, "")
+        src_args = (src_rack_label, 1, volume, liquid_class, Tip.Any, src_rack_id, "", src_rack_type, "")
         (
             src_rack_label,
             _,
             _,
-            _,
+            liquid_class,
             _,
             src_rack_id,
             _,
